@@ -2087,6 +2087,13 @@ class Evaluator(object):
         if isinstance(a, Mat) and isinstance(b, Mat):
             if a.shape == b.shape:
                 return Mat(_mat_zip(a.data, b.data, lambda x, y: self.binop(op, x, y, node)), a.shape)
+            # numpy broadcasting of two 2-d arrays: an axis of length 1 is stretched - (3, 1) with (1, 3) gives (3, 3), silently
+            if len(a.shape) == 2 and len(b.shape) == 2 and all(x == y or x == 1 or y == 1 for x, y in zip(a.shape, b.shape)):
+                n_, m_ = max(a.shape[0], b.shape[0]), max(a.shape[1], b.shape[1])
+                if n_ * m_ <= 144:
+                    def at(mt, i, j):
+                        return mt.data[i if mt.shape[0] > 1 else 0][j if mt.shape[1] > 1 else 0]
+                    return Mat([[self.binop(op, at(a, i, j), at(b, i, j), node) for j in range(m_)] for i in range(n_)], (n_, m_))
             # broadcasting of (n,1) with (n,) etc. is not modelled
             self.diag('shape', node, 'elementwise operation on shapes %s and %s' % (a.shape, b.shape))
             return self.unknown('broadcast', node)
